@@ -812,7 +812,7 @@ def execute(ctx, tasks):
 
 
 def run(ctx):
-    ctx.lean_stage()
+    ctx.lean_stage(extra_props=("Compose",))   # + PrecondVerif.ComposeProps.C03.* (gate x schedule x Newton root, Props/Compose.lean)
     const_stage(ctx)
     rng = random.Random(ctx.seed)
     tasks = corpus_tasks() + gen_tasks(ctx.tier, ctx.seed) + [_ieee_task(rng)]
